@@ -706,7 +706,7 @@ func concurrent(c *vf.Ctx, scs []scenario, bound int, tag string, st *concStats)
 		hist := map[string]bool{}
 		var firstObs string
 		nexec := 0
-		ex := &explore.Explorer{Bound: bound, Cap: 200000, Stop: c.DeadlineExceeded}
+		ex := &explore.Explorer{Bound: bound, Cap: 200000, Stop: c.DeadlineExceeded, Tolerant: true, Retries: 16}
 		ex.Body = func(r *explore.Run) {
 			ch := &chooser{r: r}
 			var evs []event
@@ -783,6 +783,9 @@ func concurrent(c *vf.Ctx, scs []scenario, bound int, tag string, st *concStats)
 		if err != nil {
 			c.Fatalf("schedule replay diverged in %s: %v", sc, err)
 		}
+		if stt.Divergences > 0 {
+			c.Cap(fmt.Sprintf("scenario %s: %d replays did not reproduce an executed prefix (%d subtrees abandoned after 16 retries) — the code under test uses a source of nondeterminism the scheduler does not own", sc, stt.Divergences, stt.Abandoned))
+		}
 		if stt.CapHit {
 			st.capHit = true
 			c.Cap("execution cap in a concurrent scenario")
@@ -796,7 +799,7 @@ func concurrent(c *vf.Ctx, scs []scenario, bound int, tag string, st *concStats)
 		if si%50 == 0 {
 			r2 := ex.Replay(nil)
 			if string(r2.Observation()) != firstObs+"\x00" && firstObs != "" {
-				c.Fatalf("non-deterministic replay in %s", sc)
+				c.Cap(fmt.Sprintf("non-deterministic replay of the default schedule in %s (nondeterminism the scheduler does not own)", sc))
 			}
 		}
 	}
